@@ -7,6 +7,7 @@ with tempfile.TemporaryDirectory(dir="/var/tmp") as d:
     junit = os.path.join(d, "j.xml")
     env = dict(os.environ, PATH="/venv/bin:" + os.environ["PATH"])
     env.pop("NUNAVUT_VERIF", None)
+    env["PYTHONPATH"] = repo + "/src"  # make sure the tree under test is imported, not the editable install of /repo
     p = subprocess.run(["/venv/bin/python", "-m", "pytest", "-ra", "-q", "-p", "no:cacheprovider", "--timeout=900",
                         "--continue-on-collection-errors", f"--junitxml={junit}"], cwd=repo, env=env,
                        stdout=subprocess.PIPE, stderr=subprocess.STDOUT, text=True)
